@@ -14,11 +14,15 @@ EXTENDS Naturals, Sequences, FiniteSets, TLC, Json, IOUtils, SequencesExt
 Letters == {"A","B","C","D","E","F","G","H","I","J","K","L","M","N","O","P","Q","R","S","T","U","V","W","X","Y","Z"}
 Words == {"Msg", "Query", "Param", "Data", "Item", "Value", "Resp", "Custom", "Exec", "Contract", "State", "Coin", "Addr"}
 ParamNames == Letters \cup Words
+(* names that can only be given to a contract's own type parameter (an interface reserves `Error`); they are names of traits *)
+(* and types the generated function bodies import or mention                                                            *)
+ContractOnlyWords == {"Error", "Deserialize", "Serialize", "Deps", "Env", "Binary"}
 Shapes == {"generic_contract", "interface_assoc"}
+Configs == [param : ParamNames, shape : Shapes] \cup [param : ContractOnlyWords, shape : {"generic_contract"}]
 
 VARIABLES cfg, stage      \* stage: "source" | "built" | "ran"
 hvars == <<cfg, stage>>
-Init == cfg \in [param : ParamNames, shape : Shapes] /\ stage = "source"
+Init == cfg \in Configs /\ stage = "source"
 Build == stage = "source" /\ stage' = "built" /\ UNCHANGED cfg     \* a valid program builds whatever its parameters are called
 Run == stage = "built" /\ stage' = "ran" /\ UNCHANGED cfg
 Next == Build \/ Run
@@ -26,6 +30,6 @@ C19_NamesAreIrrelevant == TRUE        \* (nothing in this machine depends on cfg
 
 Emit ==
     /\ TLCGet("stats").generated > 0
-    /\ ndJsonSerialize(IOEnv.VERIF_OUT, SetToSeq([param : ParamNames, shape : Shapes]))
-    /\ PrintT(<<"CONFIGS", Cardinality(ParamNames) * Cardinality(Shapes)>>)
+    /\ ndJsonSerialize(IOEnv.VERIF_OUT, SetToSeq(Configs))
+    /\ PrintT(<<"CONFIGS", Cardinality(Configs)>>)
 =============================================================================
